@@ -7,7 +7,7 @@
    behaviour before the fix, kept for the ..._without_F16 theorems. *)
 From Coq Require Import List NArith ZArith Bool.
 From JV Require Import Bytes Msg ErrsJson ErrsJsonProofs Errs ErrsProofs.
-From JV Require Json JsonProofs JsonTree JsonEq ErrsMore ErrsScan Wire WireProofs WireSpecs WireMore ErrsWire.
+From JV Require Json JsonProofs JsonTree JsonEq ErrsMore ErrsScan ErrsScanC Wire WireProofs WireSpecs WireMore ErrsWire.
 Import ListNotations.
 Local Open Scope Z_scope.
 
@@ -330,6 +330,16 @@ Print Assumptions c14_scanner_accepts_only_json.
 Theorem c14_compact_models_agree_all : forall d d' : bytes, compact d = Some d' -> Json.compact d = Some d'.
 Proof. exact ErrsScan.compact_models_agree_all. Qed.
 Print Assumptions c14_compact_models_agree_all.
+
+(* ... and conversely (errs/ErrsScanC.v): the two models of json.Marshal(json.RawMessage) / json.Compact - C14's
+   byte scanner and C13's tree parser + printer - are the same function, and so are the two validators *)
+Theorem c14_compact_models_equal : forall d : bytes, compact d = Json.compact d.
+Proof. exact ErrsScanC.compact_models_equal. Qed.
+Print Assumptions c14_compact_models_equal.
+
+Theorem c14_json_valid_models_equal : forall d : bytes, json_valid d = Json.valid d.
+Proof. exact ErrsScanC.json_valid_models_equal. Qed.
+Print Assumptions c14_json_valid_models_equal.
 
 (* error data arrive JSON-equal as VALUES (Json.parse), not only as token streams *)
 Theorem c14_data_json_equal_value : forall d d' : bytes,
